@@ -318,3 +318,90 @@ func runC20_5(c *core.Ctx) {
 	}
 	c.Ok(f.Name, "result stays inside the int range", last.Pos(), "only subtraction, right shift and bit operations follow the cascade")
 }
+
+func init() {
+	register(&core.Rule{ID: "C19.9", Prop: "C19", MinSites: 1,
+		Desc: "a registration always reports back: every function that takes a *connWithCallback out of its argument calls (or defers) its cb on every path to a return – the enrol paths wait for that callback before they deliver the single result of Register/Enroll/Dial, whatever register0 returned",
+		Run: runC19_9})
+}
+
+func runC19_9(c *core.Ctx) {
+	v := vocabOf(c)
+	if v == nil {
+		return
+	}
+	ccbT := c.P.Named("", "connWithCallback")
+	if !c.Need("connWithCallback", ccbT) {
+		return
+	}
+	sites := 0
+	for _, f := range v.funcs {
+		if f.Decl.Body == nil {
+			continue
+		}
+		// variables of type *connWithCallback bound by a type assertion
+		var holders []types.Object
+		var binds []ast.Node
+		ast.Inspect(f.Decl.Body, func(n ast.Node) bool {
+			if _, ok := n.(*ast.FuncLit); ok {
+				return false
+			}
+			as, ok := n.(*ast.AssignStmt)
+			if !ok || len(as.Rhs) != 1 {
+				return true
+			}
+			if ta, ok := ast.Unparen(as.Rhs[0]).(*ast.TypeAssertExpr); ok && ta.Type != nil {
+				if t := f.Info.TypeOf(ta.Type); t != nil && isNamedOrPtr(t, ccbT) {
+					if o := flow.ObjOf(f.Info, as.Lhs[0]); o != nil {
+						holders = append(holders, o)
+						binds = append(binds, as)
+					}
+				}
+			}
+			return true
+		})
+		for i, h := range holders {
+			h, bind := h, binds[i]
+			sites++
+			isCb := func(call *ast.CallExpr) bool {
+				sel, ok := ast.Unparen(call.Fun).(*ast.SelectorExpr)
+				return ok && sel.Sel.Name == "cb" && flow.ObjOf(f.Info, sel.X) == h
+			}
+			const (
+				fBound = 1 << iota
+				fFired
+			)
+			p := &flow.Problem{Must: false}
+			_ = p
+			au := &flow.Auto{Start: 0}
+			au.Node = func(b *flow.Block, j int, n ast.Node, st int) int {
+				if n == bind {
+					st |= fBound
+				}
+				if d, ok := n.(*ast.DeferStmt); ok && isCb(d.Call) {
+					st |= fFired
+				}
+				for _, call := range flow.Calls(n) {
+					if isCb(call) {
+						st |= fFired
+					}
+				}
+				return st
+			}
+			sol := f.Graph().Run(au)
+			bad := token.NoPos
+			sol.AtExit(func(b *flow.Block, _ uint64) {
+				for _, st := range flow.States(sol.Out(b)) {
+					if st&fBound != 0 && st&fFired == 0 && bad == token.NoPos {
+						bad = b.Return.Pos()
+					}
+				}
+			})
+			c.Check(bad == token.NoPos, f.Name, "completion callback of "+h.Name()+" fires on every path", bind.Pos(), h.Name()+".cb() is called or deferred before every return",
+				"a return is reachable on which "+h.Name()+".cb() was neither called nor deferred: the goroutine behind Register/Enroll/Dial waits for it before it delivers the result, so on this path (register0 failing, OnOpen answering Shutdown or Close) the caller never gets a result and Dial never returns")
+		}
+	}
+	if sites == 0 {
+		c.Undecided("gnet", "connWithCallback consumers", 0, "no function takes a *connWithCallback out of an interface value")
+	}
+}
